@@ -1099,19 +1099,59 @@ func c05Buckets(r *Report, rule string) {
 				o.check(ok1 || ok2, "ok(decode into "+x.results[0].S+")", "success exit returns "+x.results[0].String()+" without a matching successful decode")
 			}
 			// ... and refuses a value only after both forms have been tried
-			for _, x := range P.factsOf(csDec).exits {
-				if x.kind != exitFailure || rule == "R05.5" { // acceptance / both-directions rule: C07, C13
-					continue
-				}
-				o := r.ob(rule, shortFn(csDec)+":refusal:"+exitID(P, csDec, x), csDec, x.ret, "a value is refused only after decoding it as one Countersignature and as a list of them have both failed")
-				fs := x.facts
-				f1 := len(fs.matchAll([]factPat{fp("!" + okp("call<invoke:cbor.DecMode.Unmarshal>(%M, $0, iface<*Countersignature>(%R))"))}, nil)) > 0
-				f2 := len(fs.matchAll([]factPat{fp("!" + okp("call<invoke:cbor.DecMode.Unmarshal>(%M, $0, iface<*[]*Countersignature>(%R))"))}, nil)) > 0
-				o.check(f1 && f2, "both attempts failed", fmt.Sprintf("refusal reachable with single-object attempt failed: %v, list attempt failed: %v", f1, f2))
+			if rule != "R05.5" { // acceptance / both-directions rule: C07, C13 (and C08 directly)
+				checkCountersigValueRefusal(r, rule, csDec)
 			}
 		}
 	}
 	c05LabelScanOnly(r, rule)
+}
+
+// checkCountersigValueRefusal: the decoder of a countersignature header value
+// refuses only after both the single-object and the list form failed.
+func checkCountersigValueRefusal(r *Report, rule string, csDec *ssa.Function) {
+	P := r.P
+	for _, x := range P.factsOf(csDec).exits {
+		if x.kind != exitFailure {
+			continue
+		}
+		o := r.ob(rule, shortFn(csDec)+":refusal:"+exitID(P, csDec, x), csDec, x.ret, "a value is refused only after decoding it as one Countersignature and as a list of them have both failed")
+		fs := x.facts
+		f1 := len(fs.matchAll([]factPat{fp("!" + okp("call<invoke:cbor.DecMode.Unmarshal>(%M, $0, iface<*Countersignature>(%R))"))}, nil)) > 0
+		f2 := len(fs.matchAll([]factPat{fp("!" + okp("call<invoke:cbor.DecMode.Unmarshal>(%M, $0, iface<*[]*Countersignature>(%R))"))}, nil)) > 0
+		o.check(f1 && f2, "both attempts failed", fmt.Sprintf("refusal reachable with single-object attempt failed: %v, list attempt failed: %v", f1, f2))
+	}
+}
+
+// countersigValueDecoder: the in-package function that decodes a header value
+// into *Countersignature / []*Countersignature (by its mode calls).
+func (P *Prog) countersigValueDecoder() *ssa.Function {
+	for _, fn := range P.Funcs {
+		single, list := false, false
+		for _, ci := range callsIn(fn, nil) {
+			c := ci.Common()
+			if c.IsInvoke() && c.Method.Name() == "Unmarshal" && isCBORMode(c.Value.Type()) && len(c.Args) == 2 {
+				switch shortType(c.Args[1].Type()) {
+				case "*Countersignature":
+					single = true
+				case "*[]*Countersignature":
+					list = true
+				}
+				if mi, ok := c.Args[1].(*ssa.MakeInterface); ok {
+					switch shortType(mi.X.Type()) {
+					case "*Countersignature":
+						single = true
+					case "*[]*Countersignature":
+						list = true
+					}
+				}
+			}
+		}
+		if single && list {
+			return fn
+		}
+	}
+	return nil
 }
 
 // c05LabelScanOnly: the raw label scan's key decoder (R05.5 / R13.4).
